@@ -217,3 +217,87 @@ def every_parent_notified(ctx, prog, R):
                  "the per-edge callback and keeps the old value for that edge", fn=M, path=q.fmt_path(M, bad))
     else:
         ctx.ok(R, "notify-every-parent")
+
+
+def staleness_tables(ctx, prog, R):
+    """The predicates every scheduling decision rests on, as decision tables: is_stale per kind, the edge test, and
+    needs_to_be_computed = is_necessary && is_stale."""
+    from . import q, dtab
+    from .expr import mentions
+    F = ctx.need_fn(R, q.NODE_IMPL + "is_stale")
+    if F is not None:
+        syms = [dtab.Sym("kindopt", lambda e: e[0] == "call" and e[1].endswith("Node::kind"), {0: "None", 1: "Some"}),
+                dtab.Sym("kind", lambda e: e[0] == "field" and e[1][0] == "call" and e[1][1].endswith("Node::kind"),
+                         dtab.enum_domain(prog, "incremental::kind::Kind")),
+                dtab.Sym("never", lambda e: e[0] == "call" and e[1].endswith("::is_never") and mentions(
+                    e, lambda x: x[0] == "field" and str(x[2][-1]).endswith("recomputed_at")), {0: "computed", 1: "never"}, "bool"),
+                dtab.Sym("force", dtab.is_field_get("force_stale"), {0: "no", 1: "forced"}, "bool")]
+        tb = dtab.table(F, syms, [], path_sensitive=True, record_returns=True)
+        CHILD = "ret(is_stale_with_respect_to_a_child(arg1))"
+        n = 0
+        for (ko, kind, never, force), res in sorted(tb.items()):
+            got = dtab.summarize(res)
+            n += 1
+            if ko == "None":
+                want = ["ret(0)"]                       # an invalid node is never stale
+            elif kind == "Var":
+                want = None
+                good = len(got) == 1 and got[0].startswith("ret(gt(set_at(") and "recomputed_at" in got[0]
+            elif kind == "Constant":
+                want = ["ret(1)"] if never == "never" else ["ret(0)"]
+                if got == ["ret(is_never(get(arg1.recomputed_at)))"]:
+                    got = want
+            elif kind == "Expert":
+                want = ["ret(1)"] if (force == "forced" or never == "never") else [CHILD]
+            else:
+                want = ["ret(1)"] if never == "never" else [CHILD]
+            if want is not None:
+                good = got == want
+            ctx.site(R, F, "is_stale(%s,%s,%s,%s) -> %s" % (ko, kind, never, force, got))
+            inst = "is_stale:%s/%s/%s/%s" % (ko, kind, never, force)
+            if good:
+                ctx.ok(R, inst)
+            else:
+                ctx.fail(R, inst, "is_stale for (%s, kind %s, %s, force_stale %s) gives %s, specified %s: a node that must "
+                         "be recomputed is judged up to date (or the reverse)" % (ko, kind, never, force, got,
+                                                                                  want or "set_at > recomputed_at"), fn=F)
+        ctx.floor(R, n, 100)
+    for name, want, why in (
+            ("edge_is_stale", ["ret(gt(get(arg1.changed_at), get(recomputed_at(arg2))))"], "child.changed_at > parent.recomputed_at"),
+            ("needs_to_be_computed", ["ret(0)", "ret(is_stale(arg1))"], "is_necessary() && is_stale()")):
+        G = ctx.need_fn(R, q.NODE_IMPL + name)
+        if G is None:
+            continue
+        tb = dtab.table(G, [], [], path_sensitive=True, record_returns=True)
+        got = sorted({x for v in tb.values() for x in dtab.summarize(v)})
+        ctx.site(R, G, "%s -> %s" % (name, got))
+        if got == want:
+            ctx.ok(R, "pred:" + name)
+        else:
+            ctx.fail(R, "pred:" + name, "%s yields %s, specified %s (%s)" % (name, got, want, why), fn=G)
+    # the per-child test inside is_stale_with_respect_to_a_child: child.changed_at > self.recomputed_at (C06.DATA-gate
+    # checks the same comparison; kept there)
+
+
+def necessity_table(ctx, prog, R):
+    """is_necessary = has parents || has observers || force_necessary - the definition every necessity transition uses."""
+    from . import q, dtab
+    from .expr import mentions
+    F = ctx.need_fn(R, q.NODE_IMPL + "is_necessary")
+    if F is None:
+        return
+    emp = lambda fld: (lambda e: e[0] == "call" and e[1].endswith("::is_empty") and mentions(
+        e, lambda x: x[0] == "field" and str(x[2][-1]).endswith(fld)))
+    syms = [dtab.Sym("parents", emp("parents"), {0: "some", 1: "none"}, "bool"),
+            dtab.Sym("observers", emp("observers"), {0: "some", 1: "none"}, "bool")]
+    tb = dtab.table(F, syms, [], path_sensitive=True, record_returns=True)
+    for (pa, ob), res in sorted(tb.items()):
+        got = dtab.summarize(res)
+        want = ["ret(get(arg1.force_necessary))"] if (pa == "none" and ob == "none") else ["ret(1)"]
+        ctx.site(R, F, "is_necessary(parents %s, observers %s) -> %s" % (pa, ob, got))
+        inst = "is_necessary:%s/%s" % (pa, ob)
+        if got == want:
+            ctx.ok(R, inst)
+        else:
+            ctx.fail(R, inst, "is_necessary with (parents: %s, observers: %s) gives %s, specified %s" % (pa, ob, got, want), fn=F)
+    ctx.floor(R, len(tb), 4)
